@@ -33,12 +33,17 @@ ENGINES = [
 TEXT = dict(
     design_ref="DESIGN.md section 4, C01",
     technique="Coq refinement proof (allocator model -> per-name byte vectors) + extracted-model differential on histories",
-    text=("Proof (partial, see evidence for the theorem ledger): Coq theorems in Props/C01.v about the executable allocator "
-          "model Rawdb/Alloc.v (a branch-for-branch transcription of write_with's four placement paths, create, truncate, "
-          "rename, remove, retain, flush with hole promotion, compact, reopen), for ALL operation histories. The model is "
-          "tied to the code by regenerated constants and by comparing its COMPLETE internal state with the real allocator "
-          "after every step of generated histories, and the implementation's region bytes with independent reference "
-          "vectors."),
-    note=("Trusted: Coq kernel; gen_consts.py; extraction + OCaml driver; harness. The allocator is modelled, not verified: "
-          "the tie is differential agreement on a bounded sample of histories. Sequential semantics only (concurrency is C10)."),
+    text=("Proof: Props/C01.v + C01link.v (36 theorems) about the executable allocator model Rawdb/Alloc.v, a branch-for-branch "
+          "transcription of create, write_with's four placement paths, truncate, rename, remove, retain, flush with hole "
+          "promotion, compact, reopen. For ALL histories from the initial state: C01_refines (one run of the per-name byte-vector "
+          "reference simulates the whole history, results agreeing step by step), C01_isolation (a step addressed at one region "
+          "leaves every other region's bytes unchanged), C01_reopen (exactly the regions that ever changed length or were renamed "
+          "survive, with identical bytes), C01_never_panics (for requests below the 1 TiB reserve limit; the assert at the limit is "
+          "exhibited by a _refuted witness), and C01link_run (each region behaves as the independent byte vector the vector-layer "
+          "models assume). The model's arithmetic is re-translated from the source on every run (C01_*_is_source). The model is "
+          "compared with the real allocator on its COMPLETE internal state after every step of generated histories, and the real "
+          "region bytes with independent reference vectors."),
+    note=("Trusted: Coq kernel; gen_consts.py / gen_exprs.py; extraction + OCaml driver; harness. The allocator is modelled, not "
+          "verified: the tie is the regenerated constants/expressions plus differential agreement on a bounded sample of histories. "
+          "Sequential semantics only (concurrency is C10). Side condition op_fits_strong: no region approaches the 1 TiB reserve limit."),
 )
